@@ -2420,12 +2420,14 @@ L95:
 L115:
 	    ;
 	}
-/* Initialize heap Q and Q2 with rows held in Q(1:QLEN) */
-	q0 = qlen;
+/* Initialize heap Q and Q2 with the rows of column J recorded above. */
+/* The column is scanned again instead of reading the positions back from */
+/* Q(1:QLEN): Q2 grows downward from Q(N) while the list is consumed and */
+/* overwrites unread positions when several rows tie at DMIN. Rows that were */
+/* not recorded still have D(I) = RINF and are skipped by the first test. */
 	qlen = 0;
-	i__2 = q0;
-	for (kk = 1; kk <= i__2; ++kk) {
-	    k = q[kk];
+	i__2 = ip[j + 1] - 1;
+	for (k = ip[j]; k <= i__2; ++k) {
 	    i__ = irn[k];
 	    if (csp <= d__[i__]) {
 		d__[i__] = rinf;
